@@ -35,7 +35,9 @@ TRUSTED = [
     "sys.setprofile call/return events as the measure of activations; a bytes subclass counting slices taken inside _decode_labels_at_offset as the measure of label reads",
     "logging (log.debug / _log_exception_debug) is not modelled; the harness empties incoming._seen_logs when it exceeds 2000 entries: that "
     "module-level dict keeps one exc_info (traceback -> frames -> datagram) per distinct message text and grows without bound under hostile "
-    "traffic -- memory is outside C02's per-datagram claim and is NOT checked here",
+    "traffic (named limit DC02a: 20 KB per malformed datagram, for ever; repro and patch proposal in notes/fixes/DC02a-seen-logs*) -- memory "
+    "retained across datagrams is outside C02's per-datagram sentence: the stream `seen-logs` only measures it (evidence note) and checks that "
+    "decoding never raises with the memo full",
     "the optional Cython build (incoming.pxd: unsigned int offsets/counters) is not exercised: the pure-Python module is what runs",
     "every fifth datagram is decoded as the listener does, DNSIncoming(data, (addr, port), scope_id, now), and must give the same observation; "
     "source/scope_id/now are otherwise not modelled (scope_id is not compared)",
@@ -112,8 +114,11 @@ def obj_view(m, answers):
 
 
 class WorkBudgetExceeded(BaseException):
-    """raised by the watchdog timer: the decoder did not finish within WATCHDOG_S seconds of wall clock
-    (a decode of an 8966-byte datagram takes milliseconds; the property demands a fixed work budget)"""
+    """raised by the watchdog timer: the decoder did not finish within WATCHDOG_S seconds of CPU time
+    (a decode of an 8966-byte datagram takes milliseconds, a line-traced one well under a second; the property
+    demands a fixed work budget).  This is only the hard stop that keeps the harness from hanging: the budget
+    itself is measured in executed source lines (`steps`, see `observe`) and, for work hidden inside C calls, in
+    CPU time relative to a yardstick loop (`cpu_check`)."""
 
 
 WATCHDOG_S = 4.0
@@ -125,28 +130,121 @@ def _watchdog(signum, frame):
 
 LISTENER_ARGS = (("192.0.2.7", 5353), 3, 1000000.0)  # source, scope_id, now -- as _listener.py:147 passes them
 
+WORK_KEYS = ("questions", "records", "bm_calls", "bm_iters", "bm_bits", "bm_types")
+_loops = {}
 
-def observe(data: bytes, count_reads=False, listener_args=False):
-    """run the real decoder; -> dict(status, exc, counters, obj)"""
+
+def loop_lines():
+    """Locate, in the source of the tree under test, the loops a datagram drives besides the name decoder: the first
+    body line of the `for` loops of `_read_questions` / `_read_others`, and in `_read_bitmap` the first body line of
+    the `while`, the bit test and the append.  Found through the AST (first loop among the direct children, so an
+    added statement or a moved line does not break the measurement).  -> {code: {lineno: index into the counter
+    list}} or None when the shape is not there (then the loop counters are not measured and only `steps` is)."""
+    if "v" in _loops:
+        return _loops["v"]
+    import ast
+    import inspect
+    import textwrap
+
+    cls = impl()["inc"].DNSIncoming
+
+    def first(stmts, kind):
+        for s in stmts:
+            if isinstance(s, kind):
+                return s
+        return None
+
+    out = {}
+    try:
+        for fname, idx in (("_read_questions", 1), ("_read_others", 2)):
+            fn = getattr(cls, fname)
+            src, at = inspect.getsourcelines(fn)
+            loop = first(ast.parse(textwrap.dedent("".join(src))).body[0].body, ast.For)
+            out[fn.__code__] = {at + loop.body[0].lineno - 1: idx}
+        fn = cls._read_bitmap
+        src, at = inspect.getsourcelines(fn)
+        wh = first(ast.parse(textwrap.dedent("".join(src))).body[0].body, ast.While)
+        outer = first(wh.body, ast.For)
+        inner = first(outer.body, ast.For)
+        test = first(inner.body, ast.If)
+        lines = {at + wh.body[0].lineno - 1: 4, at + test.lineno - 1: 5, at + test.body[0].lineno - 1: 6}
+        if len(lines) != 3:
+            raise ValueError("loop lines of _read_bitmap coincide")
+        out[fn.__code__] = lines
+        _loops["bm_code"] = fn.__code__
+    except Exception:  # noqa: BLE001 - a tree whose loops look different: measured by `steps` only
+        out = None
+    _loops["v"] = out
+    return out
+
+
+def pkg_prefix():
+    import os
+
+    return os.path.dirname(os.path.dirname(impl()["inc"].__file__)) + os.sep
+
+
+def observe(data: bytes, count_reads=False, listener_args=False, steps=False):
+    """run the real decoder; -> dict(status, exc, counters, obj).  With `steps`: also `steps` (source lines of the
+    zeroconf package executed, one more per call) and `work` (the loop counters of WORK_KEYS, None if not measurable)"""
     import signal
 
-    old = signal.signal(signal.SIGALRM, _watchdog)
-    signal.setitimer(signal.ITIMER_REAL, WATCHDOG_S)
+    old = signal.signal(signal.SIGVTALRM, _watchdog)
+    signal.setitimer(signal.ITIMER_VIRTUAL, WATCHDOG_S)
     try:
-        return _observe(data, count_reads, listener_args)
+        return _observe(data, count_reads, listener_args, steps)
     except WorkBudgetExceeded:
         sys.setprofile(None)
-        return {"status": "nontermination", "exc": "WorkBudgetExceeded", "names": 0, "acts": 0, "depth": 0, "obj": None, "reads": 0}
+        sys.settrace(None)
+        return {"status": "nontermination", "exc": "WorkBudgetExceeded", "names": 0, "acts": 0, "depth": 0, "obj": None, "reads": 0,
+                "steps": None, "work": None}
     finally:
-        signal.setitimer(signal.ITIMER_REAL, 0)
-        signal.signal(signal.SIGALRM, old)
+        signal.setitimer(signal.ITIMER_VIRTUAL, 0)
+        signal.signal(signal.SIGVTALRM, old)
 
 
-def _observe(data: bytes, count_reads=False, listener_args=False):
+def _line_tracer(lc):
+    """-> (global trace function, lc) counting into lc = [steps, questions, records, bm_calls, bm_iters, bm_bits, bm_types]"""
+    special = loop_lines() or {}
+    bm_code = _loops.get("bm_code")
+    prefix = pkg_prefix()
+
+    def plain(frame, event, arg):
+        if event == "line":
+            lc[0] += 1
+        return plain
+
+    def mk(m):
+        def sp(frame, event, arg):
+            if event == "line":
+                lc[0] += 1
+                i = m.get(frame.f_lineno)
+                if i is not None:
+                    lc[i] += 1
+            return sp
+        return sp
+
+    sps = {code: mk(m) for code, m in special.items()}
+
+    def tracer(frame, event, arg):
+        co = frame.f_code
+        if co.co_filename.startswith(prefix):
+            lc[0] += 1
+            if co is bm_code:
+                lc[3] += 1
+            return sps.get(co, plain)
+        return None
+
+    return tracer
+
+
+def _observe(data: bytes, count_reads=False, listener_args=False, steps=False):
     I = impl()
     inc = I["inc"]
     dec_code, name_code = I["dec_code"], I["name_code"]
     cnt = [0, 0, 0, 0]  # names, acts, depth, maxdepth
+    lc = [0] * 7
+    tracer = _line_tracer(lc) if steps else None
 
     def prof(frame, event, arg):
         if event == "call":
@@ -166,37 +264,163 @@ def _observe(data: bytes, count_reads=False, listener_args=False):
         CountingBytes.code = dec_code
         CountingBytes.reads = 0
         data = CountingBytes(data)
-    status, exc, obj = "ok", None, None
+    status, exc, obj, second = "ok", None, None, None
     old_limit = sys.getrecursionlimit()
     # frames below the first activation: this function, __init__/answers, _initial_parse/_read_others, [_read_questions/_read_record], _read_name
     depth_here = len(_stack())
     sys.setrecursionlimit(depth_here + 5 + REC_BUDGET)
     sys.setprofile(prof)
+    if tracer is not None:
+        sys.settrace(tracer)
     try:
         try:
             m = inc.DNSIncoming(data, *LISTENER_ARGS) if listener_args else inc.DNSIncoming(data)
-        except Exception as e:  # noqa: BLE001 - the property is about *any* exception
+        except (WorkBudgetExceeded, KeyboardInterrupt):
+            raise
+        except BaseException as e:  # noqa: BLE001 - the property is about *any* exception (SystemExit and the like included)
             sys.setprofile(None)
+            sys.settrace(None)
             status, exc = "init-raised", exc_name(e)
             m = None
         if m is not None:
             try:
                 ans = m.answers()
-            except Exception as e:  # noqa: BLE001
+            except (WorkBudgetExceeded, KeyboardInterrupt):
+                raise
+            except BaseException as e:  # noqa: BLE001
                 sys.setprofile(None)
+                sys.settrace(None)
                 status, exc = "answers-raised", exc_name(e)
                 ans = m._answers
             sys.setprofile(None)
+            sys.settrace(None)
             obj = obj_view(m, ans)
+            if status == "ok":
+                # production reads answers() several times per message (record manager, query handler, repr): the second reading
+                # must not raise and must show the same object (review escape 8)
+                try:
+                    obj2 = obj_view(m, m.answers())
+                    if obj2 != obj:
+                        second = ("differs", _short(obj2))
+                except (WorkBudgetExceeded, KeyboardInterrupt):
+                    raise
+                except BaseException as e:  # noqa: BLE001
+                    second = ("raised", exc_name(e))
     finally:
         sys.setprofile(None)
+        sys.settrace(None)
         sys.setrecursionlimit(old_limit)
+    # `_seen_logs` keeps one exc_info per distinct message text for ever (named limit DC02a, notes/fixes/DC02a-seen-logs.diff): the harness
+    # bounds its own memory by emptying the dict; the growth itself, and decoding with a full memo, are the business of `seen_logs_stream`
     if len(inc._seen_logs) > 2000:
         inc._seen_logs.clear()
     out = {"status": status, "exc": exc, "names": cnt[0], "acts": cnt[1], "depth": cnt[3], "obj": obj}
+    if second is not None:
+        out["second"] = second
     if count_reads:
         out["reads"] = CountingBytes.reads
+    if steps:
+        out["steps"] = lc[0]
+        out["work"] = tuple(lc[1:]) if loop_lines() is not None else None
     return out
+
+
+# ------------------------------------------------------------------------------------------
+# work hidden inside C calls (list.sort, `x in list`, list.insert, ...) is invisible to line events: CPU time per
+# executed line, relative to a yardstick loop timed on this machine under this load
+
+CPU_SLACK = 25      # allowed: CPU_SLACK * (seconds per yardstick line) * steps(datagram) + CPU_FLOOR_S
+CPU_FLOOR_S = 0.05
+CPU_MIN_STEPS = 20000  # below that a decode takes about a millisecond: nothing to measure
+_yard = {}
+
+
+def _yardstick_loop(n):
+    """the decoder's own inner-loop idiom: bit tests and appends; executes 3 + n * (2 + 8 * 2) + popcounts lines"""
+    out = []
+    for i in range(n):
+        byte = i & 0xFF
+        for bit in range(0, 8):
+            if byte & (0x80 >> bit):
+                out.append(bit + i * 8)
+    return out
+
+
+YARD_N = 100000  # about 70 ms of CPU: with an interval timer armed the kernel accounts process CPU time in ticks (4 ms observed here),
+                 # so a yardstick of a few milliseconds reads as 0 or 4 ms
+
+
+def yardstick(fresh=False):
+    """CPU seconds per executed source line of `_yardstick_loop` (best of 2 runs of YARD_N iterations)"""
+    import time
+
+    if "lines" not in _yard:
+        n = [0]
+
+        def local(frame, event, arg):
+            if event == "line":
+                n[0] += 1
+            return local
+
+        def tr(frame, event, arg):
+            return local if frame.f_code is _yardstick_loop.__code__ else None
+
+        sys.settrace(tr)
+        try:
+            _yardstick_loop(2000)
+        finally:
+            sys.settrace(None)
+        _yard["lines"] = n[0] * (YARD_N // 2000)  # the loop body is the same for every i up to the popcount of i & 0xFF: period 256
+    if fresh or "t" not in _yard:
+        best = None
+        for _ in range(2):
+            t = time.process_time()
+            _yardstick_loop(YARD_N)
+            dt = time.process_time() - t
+            best = dt if best is None else min(best, dt)
+        _yard["t"] = max(best, 0.004) / _yard["lines"]
+    return _yard["t"]
+
+
+def cpu_seconds(data, listener_args=False):
+    """CPU time of one untraced DNSIncoming(data) + answers()"""
+    import time
+
+    inc = impl()["inc"]
+    t = time.process_time()
+    try:
+        m = inc.DNSIncoming(data, *LISTENER_ARGS) if listener_args else inc.DNSIncoming(data)
+        m.answers()
+    except Exception:  # noqa: BLE001 - reported by observe()
+        pass
+    return time.process_time() - t
+
+
+def cpu_check(data, steps):
+    """-> (ok, seconds, allowed): the untraced decode must not take more CPU than CPU_SLACK yardstick lines per executed
+    line (+ floor).  A failure is re-measured twice with a fresh yardstick; the best ratio counts."""
+    import signal
+
+    old = signal.signal(signal.SIGVTALRM, _watchdog)
+    try:
+        worst = None
+        for attempt in range(3):
+            per_line = yardstick(fresh=attempt > 0)
+            allowed = CPU_SLACK * per_line * steps + CPU_FLOOR_S
+            signal.setitimer(signal.ITIMER_VIRTUAL, max(WATCHDOG_S, 4 * allowed))
+            try:
+                sec = cpu_seconds(data)
+            except WorkBudgetExceeded:
+                sec = max(WATCHDOG_S, 4 * allowed)
+            finally:
+                signal.setitimer(signal.ITIMER_VIRTUAL, 0)
+            if sec <= allowed:
+                return True, sec, allowed
+            if worst is None or sec / allowed < worst[0] / worst[1]:
+                worst = (sec, allowed)
+        return False, worst[0], worst[1]
+    finally:
+        signal.signal(signal.SIGVTALRM, old)
 
 
 def _stack():
@@ -780,6 +1004,157 @@ def late_pointer_packet(rng, target, total=None, padbyte=None):
     return w.finish(0, [n, 0, 0], flags=0x8400, id_=0), w
 
 
+def nsec_record(owner, nxt, windows, rdlen=None, cls=1):
+    """one NSEC record: `windows` = [(window number, declared length, bitmap bytes actually written)]"""
+    rd = nxt + b"".join(bytes([w & 255, n & 255]) + bm for w, n, bm in windows)
+    return owner + struct.pack(">HHIH", 47, cls, 120, len(rd) if rdlen is None else rdlen) + rd
+
+
+def nsec_max_cases(rng, tier):
+    """NSEC records that drive `_read_bitmap` as hard as a datagram can: many windows, full bitmaps, datagrams near
+    8966 bytes, rdlength past the packet, windows that overshoot `end`, duplicated windows (second review, finding 1).
+    The strict parser accepts windows of 1..32 bytes in any order, duplicates included; the library reads any length."""
+    hdr = lambda n, nq=0: struct.pack(">HHHHHH", 0, 0x8400 if nq == 0 else 0, nq, n, 0, 0)  # noqa: E731
+    A, ROOT, FF = b"\x01a\x00", b"\x00", b"\xff"
+    out = []
+    # the reviewer's datagram: 34 windows of 255 x 0xFF (8764 bytes, 69 360 rdtypes); library-only (window length > 32)
+    out.append(hdr(1) + nsec_record(A, ROOT, [(w, 255, FF * 255) for w in range(34)]))
+    # strict-accepted maxima: all 256 windows with 32 x 0xFF (65 536 rdtypes, 8730 bytes); descending; one window 256 times
+    out.append(hdr(1) + nsec_record(A, ROOT, [(w, 32, FF * 32) for w in range(256)]))
+    out.append(hdr(1) + nsec_record(A, ROOT, [(w, 32, FF * 32) for w in reversed(range(256))]))
+    out.append(hdr(1) + nsec_record(A, ROOT, [(7, 32, FF * 32)] * 262))
+    out.append(hdr(1) + nsec_record(A, A, [(w, 32, bytes(rng.randrange(256) for _ in range(32))) for w in range(255)]))
+    # many small windows: 2 980 windows of one byte (8 966 bytes), 270 of them, alternating empty bitmaps
+    out.append(hdr(1) + nsec_record(ROOT, ROOT, [(w & 255, 1, FF) for w in range(2980)]))
+    out.append(hdr(1) + nsec_record(A, ROOT, [(w & 255, 1, FF) for w in range(270)]))
+    out.append(hdr(1) + nsec_record(A, ROOT, [(w & 255, 1, b"\x00") for w in range(1500)]))
+    out.append(hdr(1) + nsec_record(A, ROOT, [(0, 0, b"")] * 4000))                      # zero-length windows: 2 bytes per iteration
+    # duplicated windows (strict keeps both copies of every type)
+    out.append(hdr(1) + nsec_record(A, b"\x01b\x00", [(0, 1, b"\x40"), (0, 1, b"\x40")]))
+    out.append(hdr(1) + nsec_record(A, b"\x01b\x00", [(0, 2, b"\x40\x01"), (1, 1, b"\x80"), (0, 2, b"\x40\x01")]))
+    # rdlength past the packet: the loop runs into IndexError at the end of the datagram (record skipped, offset = end)
+    out.append(hdr(1) + nsec_record(A, ROOT, [(w, 255, FF * 255) for w in range(34)], rdlen=65535))
+    out.append(hdr(2) + nsec_record(A, ROOT, [(w, 32, FF * 32) for w in range(200)], rdlen=9000) + A + struct.pack(">HHIH", 1, 1, 120, 4) + b"\x0a\0\0\1")
+    out.append(hdr(1) + nsec_record(A, ROOT, [(1, 32, FF * 32)] * 100 + [(2, 255, FF * 7)]))   # last window silently short
+    out.append(hdr(1) + nsec_record(A, ROOT, [(1, 32, FF * 32)] * 100, rdlen=1 + 34 * 100 + 1) + b"\x05")  # a lone window byte at the very end
+    # windows that overshoot `end`: the offset is not reset on success, the next record is read from inside the bitmap
+    p = hdr(38)
+    for i in range(38):
+        p += nsec_record(b"\xc0\x0c" if i else A, ROOT, [(i, 8, FF * 8), (i, 200, FF * 200)], rdlen=1 + 10 + 2)
+    out.append(p)
+    # many NSEC records, each with a full window; compressed owners and next-names
+    for k, blen in ((180, 32), (25, 255), (400, 4)):
+        p = hdr(k)
+        for i in range(k):
+            if len(p) + 20 + blen > 8966:
+                p = p[:6] + struct.pack(">H", i) + p[8:]
+                break
+            p += nsec_record(b"\xc0\x0c" if i else A, b"\xc0\x0c" if i else ROOT, [(i & 255, blen, FF * blen)])
+        out.append(p)
+    # the same behind a question (records read lazily by answers())
+    out.append(hdr(1, nq=1) + A + struct.pack(">HH", 47, 1) + nsec_record(b"\xc0\x0c", b"\xc0\x0c", [(w, 32, FF * 32) for w in range(250)]))
+    for _ in range(6 if tier == "quick" else 150):
+        p = b""
+        k = rng.choice([1, 1, 2, 5, 30])
+        for i in range(k):
+            wins, size = [], 0
+            for _w in range(rng.choice([0, 1, 3, 40, 300, 3000]) // k + 1):
+                n = rng.choice([0, 1, 31, 32, 33, 255])
+                wins.append((rng.randrange(256), n, bytes(rng.choice([0xFF, 0xFF, 0, 0x80, rng.randrange(256)]) for _ in range(n if rng.random() < 0.9 else n // 2))))
+                size += 2 + len(wins[-1][2])
+                if size > 9000:
+                    break
+            p += nsec_record(b"\xc0\x0c" if i and rng.random() < 0.7 else A, rng.choice([ROOT, A, b"\xc0\x0c"]), wins,
+                             rdlen=None if rng.random() < 0.7 else rng.choice([0, 1, 3, 40, 9000, 65535]))
+            if len(p) > 8966 - 12:
+                break
+        out.append((hdr(k) + p)[:8966])
+    res = []
+    for p in out:
+        assert len(p) <= 8966, len(p)
+        res.append(("nsec-max", p))
+    for p in out[:: 3 if tier == "quick" else 1]:
+        res.append(("nsec-max-mutated", mutate(rng, p)))
+    return res
+
+
+def deep_legal_packet(hops, label=b"a", tail=(b"z",), per_node=1, refs=((12, None, ()),), question=False):
+    """A **strict-accepted** message with a deep *backward* pointer chain (second review, finding 2).  A TXT record is the
+    container: node 0 = the labels `tail` + root byte; node i = `per_node` labels `label`, then a pointer to node i-1.  Each of
+    `refs` = (record type, node index or None = the last node, literal labels in front) is a PTR/CNAME/SRV/NSEC record owned by
+    `a.` whose rdata name is those labels + a pointer to the node: following it takes (node index + 1) hops and yields
+    per_node * index + len(tail) labels.  The strict parser allows 128 hops and 253 characters; with `question` the records
+    are read lazily by answers().  -> datagram"""
+    pre = b"\x01a\x00" + struct.pack(">HHIH", 16, 1, 120, 0)
+    head = struct.pack(">HH", 12, 1) if question else b""
+    qname = b"\x01q\x00" if question else b""
+    at = 12 + len(qname) + len(head) + len(pre)
+    region, offs = bytearray(), []
+    offs.append(at)
+    region += b"".join(bytes([len(l)]) + l for l in tail) + b"\x00"
+    for _ in range(hops - 1):
+        offs.append(at + len(region))
+        for _k in range(per_node):
+            if label:
+                region += bytes([len(label)]) + label
+        region += struct.pack(">H", 0xC000 | offs[-2])
+    pre = pre[:-2] + struct.pack(">H", len(region))
+    recs = b""
+    for t, node, front in refs:
+        tgt = offs[-1] if node is None else offs[node]
+        rd = b"".join(bytes([len(l)]) + l for l in front) + struct.pack(">H", 0xC000 | tgt)
+        if t == 33:
+            rd = struct.pack(">HHH", 1, 2, 80) + rd
+        elif t == 47:
+            rd += b"\x00\x01\x40"
+        owner = b"\xc0" + bytes([12 + len(qname) + len(head)])
+        recs += owner + struct.pack(">HHIH", t, 1, 120, len(rd)) + rd
+    return struct.pack(">HHHHHH", 0, 0x8400 if not question else 0, 1 if question else 0, 1 + len(refs), 0, 0) + qname + head + pre + bytes(region) + recs
+
+
+def deep_legal_cases(rng, tier):
+    """backward chains of 21..128 hops (129/130: rejected by both parsers), names of up to 126 labels through pointers"""
+    out = []
+    kinds = [12, 5, 33, 47]
+    k = 0
+    for h in [1, 2, 20, 21, 22, 31, 32, 33, 34, 48, 63, 64, 65, 66, 96, 100, 101, 120, 125, 126, 127, 128, 129, 130]:
+        for label, tail in ((b"", (b"z",)), (b"", ()), (b"a", (b"z",)), (b"a", ())):
+            # with a one-byte label per hop the name has (h - 1) + len(tail) labels of one character: 253 characters = 126 labels
+            if label and (h - 1) + len(tail) > 127:
+                continue
+            t = kinds[k % 4]
+            k += 1
+            out.append(deep_legal_packet(h, label, tail, refs=((t, None, ()),), question=(k % 5 == 0)))
+    # the same chain referenced at several depths by several records (cache hits at every depth, both orders)
+    for h, nodes in ((128, (127, 60, 0)), (128, (0, 60, 127)), (100, (99, 99, 98)), (126, (125, 124, 64)), (70, (69, 33, 32))):
+        for label in (b"", b"a"):
+            if label and h > 126:
+                continue
+            out.append(deep_legal_packet(h, label, (b"z",), refs=tuple((kinds[i % 4], n, ()) for i, n in enumerate(nodes))))
+            out.append(deep_legal_packet(h, label, (b"z",), refs=tuple((kinds[(i + 1) % 4], n, (b"f",) if i == 1 and (not label or n < 120) else ()) for i, n in enumerate(nodes)),
+                                         question=True))
+    # many labels, fewer hops: several labels per node, a long literal tail, longer labels
+    for h, per, label, tail in ((63, 2, b"a", ()), (64, 2, b"a", ()), (32, 4, b"a", ()), (33, 3, b"b", (b"z",)), (2, 1, b"a", (b"t",) * 125), (2, 1, b"a", (b"t",) * 100),
+                                (3, 1, b"a", (b"t",) * 63), (3, 1, b"a", (b"t",) * 64), (3, 1, b"a", (b"t",) * 65), (41, 1, b"abcde", (b"local",)), (4, 1, b"x" * 63, (b"y" * 55,)),
+                                (31, 1, "é".encode() * 3, (b"z",)), (128, 1, b"", (b"x" * 63, b"y" * 63, b"z" * 63, b"w" * 59))):
+        out.append(deep_legal_packet(h, label, tail, per_node=per, refs=((kinds[k % 4], None, ()),)))
+        k += 1
+    for _ in range(8 if tier == "quick" else 300):
+        h = rng.choice([rng.randrange(21, 129), rng.randrange(100, 129), 128])
+        label = rng.choice([b"", b"a", b"a", rng.choice([b"bc", b"_t"])])
+        tail = rng.choice([(), (b"z",), (b"local",), (b"_tcp", b"local")])
+        per = 1
+        while label and (h - 1) * per * (len(label) + 1) + sum(len(t) + 1 for t in tail) > 250:
+            h -= 1
+        if h < 2:
+            continue
+        refs = tuple((rng.choice(kinds), rng.choice([None, rng.randrange(h)]), ()) for _ in range(rng.choice([1, 2, 3])))
+        out.append(deep_legal_packet(h, label, tail, per_node=per, refs=refs, question=rng.random() < 0.3))
+    res = [("deep-legal", p) for p in out]
+    res += [("deep-legal-mutated", mutate(rng, p)) for p in out[:: 4 if tier == "quick" else 1]]
+    return res
+
+
 ALPHABET = [0x00, 0x01, 0x3F, 0x40, 0xC0, 0x0C, 0xFF, 0x61]
 HEADERS = [struct.pack(">HHHHHH", 0, 0, 1, 0, 0, 0), struct.pack(">HHHHHH", 0, 0x8400, 0, 1, 0, 0)]
 
@@ -798,26 +1173,57 @@ UTF8_ALPHABET = [0x00, 0x41, 0x7F, 0x80, 0x8F, 0x90, 0x9F, 0xA0, 0xBF, 0xC0, 0xC
 # ------------------------------------------------------------------------------------------
 
 
+def disagree_facet(obs, ref):
+    """which part of the object differs from the strict parser's message: the signature of a faithfulness violation names it, so that
+    recording one class as a known finding could not hide another (second review, section 1)"""
+    obj = obs["obj"]
+    if obs["status"] != "ok" or obj is None:
+        return "raised"
+    if not obj["valid"]:
+        return "marked-invalid"
+    if obj["hdr"] != ref["hdr"]:
+        return "header"
+    if obj["questions"] != ref["questions"]:
+        return "questions"
+    a, b = obj["records"], ref["records"]
+    for x, y in zip(a, b):
+        if x != y:
+            if x[0] != y[0]:
+                return "record-owner:type-%d" % y[1]
+            if x[1:4] != y[1:4]:
+                return "record-fixed-fields:type-%d" % y[1]
+            return "record-rdata:type-%d" % y[1]
+    return "records-%s" % ("missing" if len(a) < len(b) else "extra")
+
+
 def sig_of(obs):
     if obs["status"] != "ok":
         return "C02:escape:%s" % obs["exc"]
     return None
 
 
-def check_case(res, data, stream, obs, mline, sline, bline, model_ok=True):
+def check_case(res, data, stream, obs, mline, sline, bline, model_ok=True, wline=None, wbline=None):
     """compare one datagram's observations; returns nothing, records into `res`"""
     case = {"hex": C.hx(data), "len": len(data), "stream": stream}
     res.evaluations += 1
     res.count("stream:" + stream)
     # ---------------- O: the property's sentences on the implementation
     if obs["status"] == "nontermination":
-        res.violate("C02:budget:no-termination", "decoding a %d-byte datagram did not finish within %.0f s of wall clock (unbounded loop)"
+        res.violate("C02:budget:no-termination", "decoding a %d-byte datagram did not finish within %.0f s of CPU time (a decode takes milliseconds: unbounded or super-linear loop)"
                     % (len(data), WATCHDOG_S), case)
         return
     if obs["status"] != "ok":
         res.violate("C02:escape:%s" % obs["exc"], "%s escapes %s for a %d-byte datagram (recursion depth %d)"
                     % (obs["exc"], "DNSIncoming(data)" if obs["status"] == "init-raised" else "answers()", len(data), obs["depth"]), case)
     obj = obs["obj"]
+    if obs.get("second") is not None:
+        kind, what = obs["second"]
+        if kind == "raised":
+            res.violate("C02:escape:%s" % what, "%s escapes the second answers() call on the same object for a %d-byte datagram" % (what, len(data)), case)
+        else:
+            # no sentence of the property fixes what a second reading shows for an invalid message: a broken correspondence (the model's
+            # answers() is idempotent: `_did_read_others` is set before anything can fail)
+            res.disagree("second-answers-call", case, what, "the same object as the first call: " + _short(obj))
     if obj is not None and obj["valid"]:
         for nm in [q[0] for q in obj["questions"]] + [r[0] for r in obj["records"]] + [r[4][-1] if r[4][0] in ("p", "s") else r[4][1] for r in obj["records"] if r[4][0] in ("p", "s", "n")]:
             if len(nm) > 253:
@@ -826,6 +1232,31 @@ def check_case(res, data, stream, obs, mline, sline, bline, model_ok=True):
     if bline is not None and bline != "1":
         res.violate("C02:budget", "work counters exceed the budget: names=%d activations=%d reads=%s depth=%d for %d bytes"
                     % (obs["names"], obs["acts"], obs.get("reads"), obs["depth"], len(data)), case)
+    # the loops besides the name decoder, and the executed source lines (second review, finding 1)
+    work = obs.get("work")
+    if obs.get("steps") is not None:
+        res.count("steps-measured")
+        if obs["steps"] > res.streams.get("max-steps", 0):
+            res.streams["max-steps"] = obs["steps"]
+            res.streams["max-steps-len"] = len(data)
+        if work is not None and work[4] % 8 == 0:
+            for k, v in zip(WORK_KEYS, work):
+                if v > res.streams.get("max-" + k, 0):
+                    res.streams["max-" + k] = v
+    if wbline is not None:
+        loops_ok, lines_ok = wbline.split()
+        if loops_ok != "1":
+            res.violate("C02:budget:loops", "loop counters exceed the linear budget for %d bytes: %s"
+                        % (len(data), ", ".join("%s=%d" % kv for kv in zip(WORK_KEYS, work))), case)
+        if lines_ok != "1":
+            res.violate("C02:budget:lines", "decoding a %d-byte datagram executed %d source lines of the package: more than the calibrated cost model allows "
+                        "for its loop counters (names=%d activations=%d reads=%s %s)"
+                        % (len(data), obs["steps"], obs["names"], obs["acts"], obs.get("reads"),
+                           " ".join("%s=%d" % kv for kv in zip(WORK_KEYS, work)) if work else "loops not measurable"), case)
+    if obs.get("cpu") is not None and not obs["cpu"][0]:
+        res.violate("C02:budget:cpu", "decoding a %d-byte datagram takes %.3f s of CPU time for %d executed source lines: more than %.3f s = %d yardstick lines "
+                    "per line (work hidden inside C calls: sort / membership test / insert on a list that grows with the datagram)"
+                    % (len(data), obs["cpu"][1], obs["steps"], obs["cpu"][2], CPU_SLACK), dict(case, rank=-obs["cpu"][1] / obs["cpu"][2]))
     strict = None
     if sline is not None:
         strict = parse_strict(sline)
@@ -836,16 +1267,32 @@ def check_case(res, data, stream, obs, mline, sline, bline, model_ok=True):
                 ok = (obs["status"] == "ok" and obj["valid"] and obj["hdr"] == strict["hdr"] and obj["questions"] == strict["questions"]
                       and obj["records"] == strict["records"])
                 if not ok:
-                    res.violate("C02:strict-disagrees", "the strict RFC 1035 parser accepts this datagram but the library's result differs (valid=%s)"
-                                % (obj["valid"] if obj else None), dict(case, strict=sline[:400]))
+                    res.violate("C02:strict-disagrees:" + disagree_facet(obs, strict), "the strict RFC 1035 parser accepts this datagram but the library's result "
+                                "differs (valid=%s)" % (obj["valid"] if obj else None), dict(case, strict=sline[:400]))
                 else:
                     nr, nqs = len(obj["records"]), len(obj["questions"])
-                    res.nontriv(("agree", min(nqs, 64) // 8, min(nr, 64) // 8, tuple(sorted({r[4][0] for r in obj["records"]}))))
+                    res.nontriv(("agree", min(nqs, 64) // 8, min(nr, 64) // 8, tuple(sorted({r[4][0] for r in obj["records"]})), min(obs["depth"], 130) // 8))
+                    if obs["depth"] > res.streams.get("max-agreeing-nesting", 0):
+                        res.streams["max-agreeing-nesting"] = obs["depth"]
                     if nr > res.streams.get("max-agreeing-records", 0):
                         res.streams["max-agreeing-records"] = nr
                     if nqs > res.streams.get("max-agreeing-questions", 0):
                         res.streams["max-agreeing-questions"] = nqs
-            elif strict["supported"]:
+            elif strict["reencodable"]:
+                # outside the property's hypothesis only because a record of an unsupported type is present (second review, finding 4):
+                # judged on the supported part -- `C02_agrees_strict_supported_part`: such a record is skipped and disturbs nothing.
+                # The property does not demand this, so a difference is a broken correspondence (stage C), not a violation.
+                res.count("strict-accepted-mixed")
+                sup = tuple(r for r in strict["records"] if r[4][0] != "o")
+                ok = (obs["status"] == "ok" and obj["valid"] and obj["hdr"] == strict["hdr"] and obj["questions"] == strict["questions"]
+                      and obj["records"] == sup)
+                if not ok:
+                    res.disagree("strict-supported-part", case, _short({"valid": obj["valid"] if obj else None, "records": obj["records"] if obj else None}),
+                                 "the strict parser's records of supported types: " + _short(sup))
+                else:
+                    res.count("strict-accepted-mixed-agree")
+                    res.nontriv(("agree-mixed", min(len(sup), 64) // 8, min(len(strict["records"]) - len(sup), 64) // 8, tuple(sorted({r[4][0] for r in sup}))))
+            else:
                 res.count("strict-accepted-unencodable-label")
     third_parser(res, data, case, obs, strict, sline is not None)
     # ---------------- C: model vs implementation
@@ -859,6 +1306,17 @@ def check_case(res, data, stream, obs, mline, sline, bline, model_ok=True):
         if "reads" in obs:
             keys.append("reads")
         diff = [k for k in keys if obs[k] != mod[k]]
+        if wline is not None and work is not None:
+            try:
+                mw = tuple(int(x) for x in wline.split())
+            except ValueError:
+                mw = None
+            # the implementation's bit tests are eight per scanned bitmap byte
+            iw = work[:4] + ((work[4] // 8) if work[4] % 8 == 0 else ("%d/8" % work[4]),) + work[5:]
+            if mw is None or len(mw) != 6 or iw != mw:
+                obs = dict(obs, loops=iw)
+                mod = dict(mod, loops=mw if mw is not None else wline[:80])
+                diff.append("loops")
         grey = min(obs["depth"], mod["depth"]) >= REC_BUDGET - 20 and max(obs["depth"], mod["depth"]) <= REC_BUDGET + 20
         if diff and not grey:
             res.disagree(stream, case, {k: _short(obs[k]) for k in diff}, {k: _short(mod[k]) for k in diff})
@@ -898,9 +1356,21 @@ def third_parser(res, data, case, obs, strict, have_lean):
         res.count("rfc1035.py-accepted-in-scope")
         ok = (obs["status"] == "ok" and obj["valid"] and obj["hdr"] == p253["hdr"] and obj["questions"] == p253["questions"]
               and obj["records"] == p253["records"])
+        if ok and obs["depth"] > 1:  # a name that went through at least one pointer
+            nl = max((len(n) for n in p253["names"]), default=0)
+            if nl > res.streams.get("max-agreeing-labels", 0):
+                res.streams["max-agreeing-labels"] = nl
         if not ok and not (strict is not None and strict["supported"] and strict["reencodable"]):  # else already reported above
-            res.violate("C02:strict-disagrees", "an independent strict RFC 1035 parser (253-character names) accepts this datagram but the library's result "
-                        "differs (valid=%s)" % (obj["valid"] if obj else None), case)
+            res.violate("C02:strict-disagrees:" + disagree_facet(obs, p253), "an independent strict RFC 1035 parser (253-character names) accepts this datagram "
+                        "but the library's result differs (valid=%s)" % (obj["valid"] if obj else None), case)
+    elif p253 is not None and _reenc_ok(p253["names"]):
+        # the supported part of a message that also carries unsupported records, judged without Lean
+        res.count("rfc1035.py-accepted-mixed")
+        sup = tuple(r for r in p253["records"] if r[4][0] != "o")
+        ok = (obs["status"] == "ok" and obj["valid"] and obj["hdr"] == p253["hdr"] and obj["questions"] == p253["questions"] and obj["records"] == sup)
+        if not ok and not (strict is not None and strict["reencodable"]):  # else already reported by check_case
+            res.disagree("strict-supported-part", case, _short({"valid": obj["valid"] if obj else None, "records": obj["records"] if obj else None}),
+                         "rfc1035.py's records of supported types: " + _short(sup))
     # ---- observations against the RFC's own name-length rule (a reading, never a violation)
     if prfc is not None and p253 is None and prfc["supported"] and _reenc_ok(prfc["names"]):
         res.count("rfc1035:legal-name-of-254-characters-rejected-by-the-253-rule")
@@ -942,16 +1412,25 @@ def run_schedule(a, b, schedule):
     inc = impl()["inc"]
     objs, out = {}, {}
     data = {"A": a, "B": b}
+    dead = set()
     for step in schedule:
         op, who = step[:3], step[3]
+        if who in dead and op != "new":
+            continue  # its constructor raised: that exception is the observation (not the harness's own KeyError on the missing object)
         try:
             if op == "new":
+                dead.discard(who)
                 objs[who] = inc.DNSIncoming(data[who], *LISTENER_ARGS)
             else:
                 ans = objs[who].answers()
                 out[who] = dict(obj_view(objs[who], ans), status="ok", exc=None)
-        except Exception as e:  # noqa: BLE001
-            out[who] = {"status": "raised", "exc": exc_name(e), "valid": None, "qu": None, "hdr": None, "questions": (), "records": ()}
+        except (WorkBudgetExceeded, KeyboardInterrupt):
+            raise
+        except BaseException as e:  # noqa: BLE001
+            if op == "new":
+                dead.add(who)
+            out[who] = {"status": "raised", "exc": exc_name(e), "where": "DNSIncoming(data)" if op == "new" else "answers()",
+                        "valid": None, "qu": None, "hdr": None, "questions": (), "records": ()}
     return out
 
 
@@ -963,7 +1442,7 @@ def check_interleaved(res, a, b, schedule, views, lines_a, lines_b):
         res.evaluations += 1
         case = {"interleave": {"A": C.hx(a), "B": C.hx(b), "schedule": list(schedule), "which": who}, "len": len(data), "stream": "interleave"}
         if v["status"] != "ok":
-            res.violate("C02:escape:%s" % v["exc"], "%s escapes while decoding datagram %s of an interleaved pair" % (v["exc"], who), case)
+            res.violate("C02:escape:%s" % v["exc"], "%s escapes %s while decoding datagram %s of an interleaved pair" % (v["exc"], v.get("where", ""), who), case)
             continue
         obj = {k: v[k] for k in ("valid", "qu", "hdr", "questions", "records")}
         strict = parse_strict(sl) if sl is not None else None
@@ -1061,6 +1540,82 @@ def utf8_stream(res, rng, tier, driver_ok):
     res.count("stream:utf8", len(cases))
 
 
+def seen_logs_stream(res, tier):
+    """`incoming._seen_logs` (second review, finding 3): decode a run of malformed datagrams with pairwise distinct exception texts
+    *without* the harness emptying the memo in between.  (i) O: none of them may raise, whatever the memo holds by then (a cap that
+    raises, an eviction that trips over its own iteration ... would show here and nowhere else, because `observe` empties the dict);
+    (ii) observation, not a C02 verdict: how many entries and how many bytes stay behind per datagram.  The property's sentence is about
+    each datagram's result and work; memory retained *across* datagrams is outside it (DESIGN §6.6) -- reported as the named limit
+    `DC02a` (notes/fixes/DC02a-seen-logs-repro.py, proposed patch notes/fixes/DC02a-seen-logs.diff)."""
+    import gc
+    import tracemalloc
+
+    inc = impl()["inc"]
+    memo = getattr(inc, "_seen_logs", None)
+    n = 600 if tier == "quick" else 3000
+    if memo is not None:
+        memo.clear()
+    gc.collect()
+    tracemalloc.start()
+    base = tracemalloc.get_traced_memory()[0]
+    for i in range(n):
+        body = b"\x01a" * i + b"\x80"  # reserved label type at offset 12 + 2i: a distinct message text per datagram
+        pkt = (struct.pack(">HHHHHH", i, 0, 1, 0, 0, 0) + body + b"\x00" * 9000)[:8966]
+        res.evaluations += 1
+        try:
+            m = inc.DNSIncoming(pkt, *LISTENER_ARGS)
+            m.answers()
+            if m.valid:
+                res.disagree("seen-logs", {"hex": C.hx(pkt[:12 + 2 * i + 4]), "len": len(pkt)}, "valid", "a reserved label type makes the message invalid")
+        except Exception as e:  # noqa: BLE001
+            res.violate("C02:escape:%s" % exc_name(e), "%s escapes while decoding the %d-th of a run of malformed datagrams with distinct error texts "
+                        "(incoming._seen_logs holds %s entries)" % (exc_name(e), i + 1, len(memo) if memo is not None else "?"),
+                        {"hex": C.hx(pkt), "len": len(pkt), "stream": "seen-logs", "run": "datagram i = header(id=i, 1 question) + i x 01 61 + 80, zero-padded to 8966 bytes; i = 0..%d" % i})
+            break
+    m = pkt = body = None
+    gc.collect()
+    retained = tracemalloc.get_traced_memory()[0] - base
+    tracemalloc.stop()
+    entries = len(memo) if memo is not None else 0
+    res.count("stream:seen-logs", n)
+    res.streams["seen-logs-entries"] = entries
+    res.streams["seen-logs-retained-kb"] = retained // 1000
+    unbounded = entries >= n or retained > 20 * n * 100
+    res.count("seen-logs:growth-%s" % ("unbounded" if unbounded else "bounded"))
+    res.notes.append("named limit DC02a (memory across datagrams, outside C02's sentence): after %d malformed datagrams with distinct error texts incoming._seen_logs "
+                     "holds %d entries and %.1f MB stay allocated (%.1f KB per datagram) -- %s"
+                     % (n, entries, retained / 1e6, retained / 1e3 / n,
+                        "UNBOUNDED: one exc_info (traceback -> frames -> the datagram) per distinct text, for ever; patch proposal notes/fixes/DC02a-seen-logs.diff"
+                        if unbounded else "bounded"))
+    if memo is not None:
+        memo.clear()
+
+
+def pxd_pin(res):
+    """The shipped wheels are the Cython build of incoming.py, typed by incoming.pxd; what runs here is the pure-Python module (TRUSTED).
+    A static pin on the one thing a .pxd edit can silently change -- the width of the C integers that hold offsets, lengths, counts and
+    links (review escape 6): every integer type in the file must be `unsigned int` / `cython.uint`; the only narrower type allowed is the
+    byte view `const unsigned char [:] view`.  Anything else is a broken tie (stage C), not a verdict about behaviour."""
+    import re
+
+    path = C.REPO / "src" / "zeroconf" / "_protocol" / "incoming.pxd"
+    res.evaluations += 1
+    if not path.exists():
+        res.count("pxd:absent")
+        return
+    bad = []
+    for no, line in enumerate(path.read_text().splitlines(), 1):
+        code = line.split("#")[0]
+        if re.search(r"const\s+unsigned\s+char\s*\[:\]\s*view", code):
+            continue
+        if re.search(r"\b(char|short|uchar|ushort|schar|sshort|int8_t|uint8_t|int16_t|uint16_t)\b", code):
+            bad.append((no, line.strip()))
+    res.count("pxd:integer-declarations-checked")
+    for no, line in bad:
+        res.disagree("pxd-types", {"file": "src/zeroconf/_protocol/incoming.pxd", "line": no}, line,
+                     "every C integer that holds an offset, length, count or pointer target is `unsigned int` (>= 16 383 + 65 535 must fit)")
+
+
 def guard_stream(res, driver_ok):
     """the listener's size guard: lengths around 8966 against the leaf and the real `datagram_received`"""
     from zeroconf import _listener as L
@@ -1120,6 +1675,14 @@ def gen_cases(tier, rng, budget, res):
         p, _q, _d = many_entries_packet(rng, rng.choice([0, 1, 5, 40, 300]), [rng.choice([0, 10, 66, 130, 300]) for _ in range(3)])
         yield ("many-entries", p)
         yield ("many-entries-mutated", mutate(rng, p))
+    # as many records / questions as 8966 bytes hold (11 / 5 bytes each): the largest counts the section loops can reach
+    hd = lambda nq, n: struct.pack(">HHHHHH", 0, 0x8400 if nq == 0 else 0, nq, n, 0, 0)  # noqa: E731
+    yield ("max-records", hd(0, 814) + (b"\x00" + struct.pack(">HHIH", 16, 1, 120, 0)) * 814)          # 814 empty TXT records owned by the root: strict-accepted
+    yield ("max-records", hd(0, 814) + (b"\x00" + struct.pack(">HHIH", 99, 1, 120, 0)) * 814)          # 814 records of an unsupported type
+    yield ("max-records", hd(0, 814) + (b"\x00" + struct.pack(">HHIH", 1, 1, 120, 0)) * 814)           # A records with rdlength 0: each reads into the next
+    yield ("max-records", hd(0, 65535) + (b"\x00" + struct.pack(">HHIH", 16, 1, 120, 0)) * 814)        # count field larger than the packet holds
+    yield ("max-records", hd(1790, 0) + (b"\x00" + struct.pack(">HH", 12, 1)) * 1790)                   # 1790 root questions
+    yield ("max-records", hd(5, 700) + (b"\x00" + struct.pack(">HH", 12, 0x8001)) * 5 + (b"\xc0\x0c" + struct.pack(">HHIH", 16, 1, 120, 0)) * 700)
     # names around the length limit: 253 characters (library/Strict) vs 255 wire octets (RFC 1035)
     for last in (58, 59, 60, 61, 62):
         yield ("name-limit", name_limit_packet([b"a" * 63] * 3 + [b"b" * last]))          # 251..255 characters, ASCII
@@ -1139,6 +1702,12 @@ def gen_cases(tier, rng, budget, res):
         p, w = late_pointer_packet(rng, rng.choice([rng.randrange(0x1000, 0x2000), rng.randrange(0x2000, 8800), rng.randrange(8180, 8210)]),
                                    rng.choice([None, 8966, 8193]) , rng.choice([None, 0, 0xC0, 0x01]))
         yield ("late-pointer", p)
+    # deep legal chains: strict-accepted names through up to 128 backward hops / up to 126 labels
+    for case in deep_legal_cases(rng, tier):
+        yield case
+    # NSEC bitmaps as heavy as a datagram can make them
+    for case in nsec_max_cases(rng, tier):
+        yield case
     # exhaustive small strings
     Lq, Lr = (4, 3) if tier == "quick" else (6, 5)
     n_ex = 0
@@ -1182,6 +1751,16 @@ def gen_cases(tier, rng, budget, res):
         yield ("large-mutated", mutate(rng, p, w))
 
 
+def work_budget_line(b, o):
+    """the driver line that evaluates `workWithin` / `linesWithin` on the counters measured on the implementation; when the loop
+    counters could not be measured (a tree whose loops look different) or the label reads were not counted for this case, a
+    placeholder that keeps the line count (its one-token answer is mapped to None)"""
+    w = o.get("work")
+    if o.get("steps") is None or w is None or w[4] % 8 or "reads" not in o:
+        return "c02g 0"
+    return "c02wb %d %d %d %d %d %d %d %d %d %d %d" % (len(b), o["names"], o["acts"], o["reads"], w[0], w[1], w[2], w[3], w[4] // 8, w[5], o["steps"])
+
+
 def process(res, cases, driver_ok, base):
     """one chunk: run the implementation, the model, the strict decoder and the budget predicate; compare"""
     obs = []
@@ -1189,17 +1768,19 @@ def process(res, cases, driver_ok, base):
         i += base
         count_reads = (i % 3 == 0) or stream in ("graph", "chain") or stream.startswith("corpus")
         largs = i % 5 == 1
-        if count_reads:
-            o = observe(b, True, largs)
-            if i % 12 == 0:
-                o2 = observe(b, False)  # the counting wrapper must not change behaviour
-                o2["reads"] = o["reads"]
-                if o2 != o:
-                    res.disagree("counting-bytes", {"hex": C.hx(b)}, _short(o2), _short(o))
-        else:
-            o = observe(b, False, largs)
+        # label reads (counting `bytes` subclass) and executed lines (line tracer) are measured on every case; every twelfth case is
+        # decoded again without either: neither instrument may change behaviour
+        o = observe(b, True, largs, steps=True)
+        if i % 12 == 0 or count_reads and i % 4 == 0:
+            o2 = observe(b, False, largs)
+            o2["reads"] = o["reads"]
+            if o2 != {k: v for k, v in o.items() if k not in ("steps", "work")}:
+                res.disagree("counting-bytes", {"hex": C.hx(b)}, _short(o2), _short(o))
+        if o.get("steps") is not None and o["steps"] >= CPU_MIN_STEPS:
+            o["cpu"] = cpu_check(b, o["steps"])
+            res.count("cpu-checked")
         obs.append(o)
-    mlines = slines = blines = [None] * len(cases)
+    mlines = slines = blines = wlines = wblines = [None] * len(cases)
     if driver_ok:
         try:
             lines = []
@@ -1208,20 +1789,34 @@ def process(res, cases, driver_ok, base):
                 lines.append("c02 " + h)
                 lines.append("c02s " + h)
                 lines.append("c02b %d %d %d %d %d" % (len(b), o["names"], o["acts"], o.get("reads", 0), o["depth"]))
+                lines.append("c02w " + h)
+                lines.append(work_budget_line(b, o))
             out = C.run_driver(lines)
-            mlines, slines, blines = out[0::3], out[1::3], out[2::3]
+            mlines, slines, blines, wlines, wblines = out[0::5], out[1::5], out[2::5], out[3::5], out[4::5]
+            wblines = [x if " " in x else None for x in wblines]
         except C.DriverUnavailable as ex:
             res.notes.append("driver unavailable: %s" % ex)
             driver_ok = False
-    for (stream, b), o, ml, sl, bl in zip(cases, obs, mlines, slines, blines):
-        check_case(res, b, stream, o, ml, sl, bl)
+    for (stream, b), o, ml, sl, bl, wl, wbl in zip(cases, obs, mlines, slines, blines, wlines, wblines):
+        check_case(res, b, stream, o, ml, sl, bl, wline=wl, wbline=wbl)
         if stream == "valid":
             res.sample({"hex": C.hx(b)[:120], "status": o["status"], "valid": o["obj"]["valid"] if o["obj"] else None}, limit=3)
     if not driver_ok:
-        # python-only budget: depth and activations per name
+        # python-only budget (mirror of DecodeSpec.withinBudget / DecodeLib.workWithin / lineCost, used only when the driver does not build)
         for (stream, b), o in zip(cases, obs):
+            case = {"hex": C.hx(b), "len": len(b), "stream": stream}
             if o["depth"] > 129 or o["acts"] > 129 * max(1, o["names"]):
-                res.violate("C02:budget", "recursion depth %d / %d activations for %d names" % (o["depth"], o["acts"], o["names"]), {"hex": C.hx(b), "len": len(b)})
+                res.violate("C02:budget", "recursion depth %d / %d activations for %d names" % (o["depth"], o["acts"], o["names"]), case)
+            w = o.get("work")
+            if o.get("steps") is not None and w is not None and w[4] % 8 == 0 and "reads" in o:
+                q, r, calls, iters, bits, types = w
+                n = len(b)
+                if not (5 * q <= n + 5 and 11 * r <= n + 11 and calls <= r and bits // 8 + 2 * iters <= n + 2 and types <= bits):
+                    res.violate("C02:budget:loops", "loop counters exceed the linear budget for %d bytes: %s" % (n, ", ".join("%s=%d" % kv for kv in zip(WORK_KEYS, w))), case)
+                cost = (400 + 120 * q + 400 * r + 120 * o["names"] + 120 * o["acts"] + 80 * o["reads"] + 80 * calls + 60 * iters + 10 * bits + 12 * types)
+                if o["steps"] > cost:
+                    res.violate("C02:budget:lines", "decoding a %d-byte datagram executed %d source lines of the package: more than the calibrated cost model "
+                                "allows (%d)" % (n, o["steps"], cost), case)
     return driver_ok
 
 
@@ -1235,6 +1830,7 @@ def run(ctx):
         budget = budget * 5 // 4
     res.rule = ("datagrams from six streams (corpus; uniform random; wire-built valid messages and messages from the library's encoder, "
                 "plain and mutated by bit flips/truncation/insertion/count- and length-field corruption; pointer graphs: chains up to depth 4000, cycles, "
+                "NSEC records with as many / as full bitmap windows as 8966 bytes hold, rdlength past the packet, overshooting and duplicated windows; "
                 "self/forward references, pointers into rdata, empty-label chains; large datagrams (up to 8966 bytes) whose names are first defined "
                 "at offsets >= 0x1000 / 0x2000 / 8192 and referenced by pointers afterwards; exhaustive strings over {00,01,3F,40,C0,0C,FF,'a'} behind two fixed headers); "
                 "non-trivial = distinct (outcome, exception, valid, recursion depth, #questions, record kinds, strict-accepted) signature")
@@ -1248,18 +1844,37 @@ def run(ctx):
     if chunk:
         driver_ok = process(res, chunk, driver_ok, base)
     interleave_stream(res, rng, tier, driver_ok)
+    seen_logs_stream(res, tier)
     utf8_stream(res, rng, tier, driver_ok)
     # the text layer: names the decoder returns (text, len(name)) and what write_name makes of them, against Zc.NameText
     textlayer.reencode_stream(res, rng, tier, driver_ok, rlabel)
     guard_stream(res, driver_ok)
-    res.notes.append("largest message on which the library agreed with the strict parser: %d records, %d questions"
-                     % (res.streams.get("max-agreeing-records", 0), res.streams.get("max-agreeing-questions", 0)))
+    pxd_pin(res)
+    res.notes.append("largest message on which the library agreed with the strict parser: %d records, %d questions; deepest agreeing pointer chain: nesting %d "
+                     "(= %d hops; the strict parser allows 128); longest agreeing name in a message with compressed names: %d labels"
+                     % (res.streams.get("max-agreeing-records", 0), res.streams.get("max-agreeing-questions", 0), res.streams.get("max-agreeing-nesting", 0),
+                        max(0, res.streams.get("max-agreeing-nesting", 0) - 1), res.streams.get("max-agreeing-labels", 0)))
+    acc = res.dist.get("strict-accepted", 0)
+    if acc:
+        inscope, mixed, unenc = res.dist.get("strict-accepted-in-scope", 0), res.dist.get("strict-accepted-mixed", 0), res.dist.get("strict-accepted-unencodable-label", 0)
+        res.notes.append("faithfulness: of %d strict-accepted datagrams %d (%.0f %%) are in the property's scope and judged in full, %d (%.0f %%) carry a record of an "
+                         "unsupported type and are judged on their supported part (C02_agrees_strict_supported_part; %d agree), "
+                         "%d (%.0f %%) carry a label that cannot be written back and are outside the `reencodable` proviso (not judged)"
+                         % (acc, inscope, 100.0 * inscope / acc, mixed, 100.0 * mixed / acc, res.dist.get("strict-accepted-mixed-agree", 0), unenc, 100.0 * unenc / acc))
+    res.notes.append("work besides the name decoder (measured on the implementation with a line tracer, compared with the model's counters on every datagram): "
+                     "at most %d source lines of the package per datagram (a %d-byte one); largest loop counters: %s; %d decodes of >= %d lines also held to the "
+                     "CPU-time yardstick (%d yardstick lines per executed line + %.2f s)"
+                     % (res.streams.get("max-steps", 0), res.streams.get("max-steps-len", 0),
+                        ", ".join("%s=%d" % (k, res.streams.get("max-" + k, 0)) for k in WORK_KEYS), res.dist.get("cpu-checked", 0), CPU_MIN_STEPS, CPU_SLACK, CPU_FLOOR_S))
+    if loop_lines() is None:
+        res.notes.append("the loops of _read_questions/_read_others/_read_bitmap were not found in the shape the tracer expects: loop counters not measured, line budget not evaluated")
     res.notes.append("RFC 1035 name-length rule (255 wire octets) vs the 253-character rule of the property: %d RFC-legal datagrams rejected only because of "
                      "a 254-character name, %d datagrams accepted although a name exceeds 255 octets (reading, see ASSUMPTIONS)"
                      % (res.dist.get("rfc1035:legal-name-of-254-characters-rejected-by-the-253-rule", 0),
                         res.dist.get("rfc1035:name-over-255-octets-accepted-by-the-253-character-rule", 0)))
     # report an escaping exception before anything else, and the shortest witness of each signature first
-    res.violations.sort(key=lambda v: (0 if v["sig"].startswith("C02:escape") else 1, v["sig"], v["case"].get("len", 0)))
+    # (for the CPU budget the most blatant witness first: `rank` = -seconds/allowed)
+    res.violations.sort(key=lambda v: (0 if v["sig"].startswith("C02:escape") else 1, v["sig"], v["case"].get("rank", v["case"].get("len", 0))))
     return res
 
 
@@ -1283,16 +1898,22 @@ def replay(body):
                 "decoded_alone": _short(alone["obj"]), "decoded_interleaved": _short(views.get(il["which"])),
                 "model_disagrees": bool(res.disagreements)}
     data = bytes.fromhex(case["hex"]) if case.get("hex", "-") != "-" else b""
-    o = observe(data, True)
+    o = observe(data, True, steps=True)
     out = {"len": len(data), "status": o["status"], "exception": o["exc"], "depth": o["depth"], "activations": o["acts"], "names": o["names"],
-           "reads": o["reads"], "valid": o["obj"]["valid"] if o["obj"] else None}
+           "reads": o["reads"], "valid": o["obj"]["valid"] if o["obj"] else None, "steps": o.get("steps"),
+           "loops": dict(zip(WORK_KEYS, o["work"])) if o.get("work") else None}
+    if o.get("steps"):
+        o["cpu"] = cpu_check(data, max(o["steps"], CPU_MIN_STEPS))
+        out["cpu_seconds"], out["cpu_allowed"] = round(o["cpu"][1], 4), round(o["cpu"][2], 4)
     res = C.Result("C02")
-    ml = sl = bl = None
+    ml = sl = bl = wl = wbl = None
     try:
-        ml, sl, bl = C.run_driver(["c02 " + C.hx(data), "c02s " + C.hx(data), "c02b %d %d %d %d %d" % (len(data), o["names"], o["acts"], o["reads"], o["depth"])])
+        ml, sl, bl, wl, wbl = C.run_driver(["c02 " + C.hx(data), "c02s " + C.hx(data), "c02b %d %d %d %d %d" % (len(data), o["names"], o["acts"], o["reads"], o["depth"]),
+                                            "c02w " + C.hx(data), work_budget_line(data, o)])
+        wbl = wbl if " " in wbl else None
     except C.DriverUnavailable:
         pass
-    check_case(res, data, "replay", o, ml, sl, bl)
+    check_case(res, data, "replay", o, ml, sl, bl, wline=wl, wbline=wbl)
     out["violates"] = bool(res.violations)
     out["violations"] = [v["sig"] + ": " + v["what"] for v in res.violations]
     out["model"] = (ml or "")[:300]
